@@ -14,7 +14,7 @@ sys.path.insert(0, os.path.join(vlib.VERIF, "checks"))
 import c05ref as R  # noqa: E402  (python reference used by the failing-input search only)
 
 GROUPS = ["Val", "D12", "D3dist", "D3p01", "D3p02", "D3p12", "F", "W",
-          "Dec12", "Dec3full", "Dec3p01", "Dec3p02", "Dec3p12", "Dec3dist"]
+          "Dec12", "Dec3full", "Dec3p01", "Dec3p02", "Dec3p12", "Dec3dist", "TabP01pp", "TabDistppp", "TabDistnnn"]
 PROPS_QUICK = ["TfelVerif.C05.Props", "TfelVerif.C05.PropsDeriv", "TfelVerif.C05.PropsWrap", "TfelVerif.C05.PropsDec"]
 PROPS_THOROUGH = PROPS_QUICK + ["TfelVerif.C05.PropsDecX"]
 SIZE = {1: 3, 2: 4, 3: 6}
@@ -25,6 +25,8 @@ def group_of(name):
         return "Val"
     m = re.match(r"N(\d)_(.*)", name)
     n, r = m.group(1), m.group(2)
+    if r.startswith("dect_"):
+        return {"p01_pp": "TabP01pp", "dist_ppp": "TabDistppp", "dist_nnn": "TabDistnnn"}[r[5:]]
     if r.startswith("dec_"):
         return "Dec12" if n != "3" else "Dec3" + r.split("_")[1]
     if r.startswith("w_d_"):
